@@ -1173,7 +1173,7 @@ func scheduleCallBody(fn *ssa.Function, args []string) string {
 }
 
 var ghostIntrinsicNames = []string{"verifBuf", "verifRdPos", "verifRdData", "verifRdEOF", "verifWritten", "verifTokPos", "verifTokDepth", "verifFresh", "verifFreshVal",
-	"verifRangeCount", "verifRangeIndex", "verifHeight", "verifIsNaN", "verifIsInf", "verifVisited", "verifLent", "verifInfallibleWriter", "verifIsByteReader", "verifMapsSameExcept", "verifMapSameExceptKey", "verifMapSameExceptKeys", "verifOldHas", "verifOldGet", "verifOldLen", "verifLoopSame", "verifFile", "verifOldTrueB", "verifGrowsB"}
+	"verifRangeCount", "verifRangeIndex", "verifHeight", "verifIsNaN", "verifIsInf", "verifVisited", "verifLent", "verifInfallibleWriter", "verifIsByteReader", "verifMapsSameExcept", "verifMapSameExceptKey", "verifMapSameExceptKeys", "verifOldHas", "verifOldGet", "verifOldLen", "verifLoopSame", "verifFile", "verifOldTrueB", "verifGrowsB", "verifMapUnchanged", "verifOldInt", "verifOldBool"}
 
 // usesGhostIntrinsic: the clause mentions a ghost function that has no executable body (cannot be evaluated in a replay).
 func usesGhostIntrinsic(expr string) bool {
